@@ -8,6 +8,8 @@ rc=0
 if [ -d engine/instrument ] && ls engine/instrument/*.go >/dev/null 2>&1; then
   ( cd engine/instrument && go build -o /dev/null . ) || rc=1
 fi
+# engine self-test: the scheduler shim must agree with the Go runtime on the litmus suite
+./check SELFTEST quick >/dev/null 2>&1 || { echo "setup: engine self-test failed" >&2; rc=1; }
 # compile every harness once (no test is run: -run '^$')
 VERIF_WARM=1 ./scripts/warm.sh || rc=1
 exit $rc
